@@ -153,6 +153,15 @@ func TestVerif_GenConsts(t *testing.T) {
 	c["hotRestartDoneState"] = int64(hotRestartDoneState)
 	c["epochIDLen"] = epochIDLen
 	c["defaultSingleBufferSize"] = defaultSingleBufferSize
+	c["callbackDefault"] = int64(callbackDefault)
+	c["callbackWaitExit"] = int64(callbackWaitExit)
+	c["memfdCount"] = memfdCount
+	c["memfdDataLen"] = memfdDataLen
+	c["MemMapTypeDevShmFile"] = int64(MemMapTypeDevShmFile)
+	c["MemMapTypeMemFd"] = int64(MemMapTypeMemFd)
+	for v, f := range protocolVersionInitializersFactory {
+		c[fmt.Sprintf("initializerVersion_%d", v)] = int64(f(nil, nil).Version())
+	}
 	c["protocolHandlersLen"] = int64(len(protocolHandlers))
 	for i, h := range protocolHandlers {
 		v := int64(0)
@@ -210,6 +219,78 @@ func TestVerif_GenConsts(t *testing.T) {
 	need("createFreeBufferList", "bufferList", "create_list")
 	need("mappingFreeBufferList", "bufferList", "map_list")
 	need("mappingQueueFromBytes", "queue", "map_queue")
+
+	// which half of the queue mapping each side uses:  sendQueue: f(mem[:x/2]) -> 0 (lower), f(mem[x/2:]) -> 1 (upper)
+	for _, fn := range []string{"createQueueManager", "createQueueManagerWithMemFd", "mappingQueueManager", "mappingQueueManagerMemfd"} {
+		fd := funcs[fn]
+		if fd == nil {
+			out.Errors = append(out.Errors, "function not found: "+fn)
+			continue
+		}
+		m := map[string]int64{}
+		ast.Inspect(fd, func(n ast.Node) bool {
+			cl, ok := n.(*ast.CompositeLit)
+			if !ok {
+				return true
+			}
+			if id, ok := cl.Type.(*ast.Ident); !ok || id.Name != "queueManager" {
+				return true
+			}
+			for _, el := range cl.Elts {
+				kv, ok := el.(*ast.KeyValueExpr)
+				if !ok {
+					continue
+				}
+				key, ok := kv.Key.(*ast.Ident)
+				if !ok || (key.Name != "sendQueue" && key.Name != "recvQueue") {
+					continue
+				}
+				call, ok := kv.Value.(*ast.CallExpr)
+				if !ok || len(call.Args) == 0 {
+					continue
+				}
+				se, ok := call.Args[0].(*ast.SliceExpr)
+				if !ok {
+					continue
+				}
+				if se.Low == nil && se.High != nil {
+					m[key.Name] = 0
+				} else if se.Low != nil && se.High == nil {
+					m[key.Name] = 1
+				}
+			}
+			return true
+		})
+		if len(m) != 2 {
+			out.Errors = append(out.Errors, "queue halves not recognised in "+fn)
+			continue
+		}
+		out.Offsets["halves_"+fn] = m
+	}
+	// the percent base in createBufferManager:  bufferRegionCap*uint64(pair.Percent)/N  and  sumPercent > N
+	if fd := funcs["createBufferManager"]; fd != nil {
+		ast.Inspect(fd, func(n ast.Node) bool {
+			if be, ok := n.(*ast.BinaryExpr); ok {
+				if v, ok := genIntLit(be.Y); ok {
+					if be.Op == token.QUO {
+						if _, isBin := be.X.(*ast.BinaryExpr); isBin {
+							c["percentDivisor"] = v
+						}
+					}
+					if be.Op == token.GTR {
+						c["percentSumMax"] = v
+					}
+				}
+			}
+			return true
+		})
+		if _, ok := c["percentDivisor"]; !ok {
+			out.Errors = append(out.Errors, "percent divisor not recognised in createBufferManager")
+		}
+		if _, ok := c["percentSumMax"]; !ok {
+			out.Errors = append(out.Errors, "percent sum bound not recognised in createBufferManager")
+		}
+	}
 
 	// retry bound of bufferList.pop:  for i := 0; i < N; i++
 	if fd := funcs["bufferList.pop"]; fd != nil {
